@@ -554,7 +554,8 @@ class Chain:
         s.ax = [a for a in s.ax if not z3.is_true(a)]
     def lemma(s, label, goal, hyps, solver='nra', timeout=None, mandatory=True):
         s.n += 1
-        r, _ = s.S.prove('%s.chain%03d.%s' % (s.name, s.n, label[:90]), goal, list(hyps), kind='lemma', solver=solver, timeout=timeout or s.S.cap(30, 90), functions=s.fn, mandatory=mandatory)
+        r, _ = s.S.prove('%s.chain%03d.%s' % (s.name, s.n, label[:90]), goal, list(hyps), kind='lemma', solver=solver, timeout=timeout or s.S.cap(30, 90), functions=s.fn, mandatory=mandatory,
+                         replay=lambda m: ('not-reproduced', {'note': 'lemma of a simplification chain: a model only means the rewrite is not available'}))
         return r == 'unsat'
     def equate(s, label, var, arg, want_sq, want, extra=()):
         """var is the executor's sqrt of arg: (1) arg == want_sq (identity under pre), (2) var == want from var >= 0, var^2 == want_sq, want >= 0; then var := want everywhere"""
@@ -768,7 +769,7 @@ def job_decompose(t, base, axis, signs, skew, persp=0):
         for cn, cond in cases:
             r0, _, _, _ = S.query(pre + cond, 5, 'nra')
             if r0 == 'unsat':
-                S.prove('%s.%s.unreachable' % (name, cn), z3.BoolVal(False), pre + cond, timeout=20, solver='nra', kind='lemma', functions=['w_' + fn], bounds=bounds + '; branch not reachable in this family'); continue
+                S.prove('%s.%s.unreachable' % (name, cn), z3.Not(z3.And(*cond)), pre, timeout=20, solver='nra', kind='lemma', functions=['w_' + fn], bounds=bounds + '; branch not reachable in this family'); continue
             D = C.fork(cn, cond); D.conds(); D.reduce(s_, 1 - c * c)
             comp = D.g['comp']; hy = lambda g: D.pre + select_axioms(D.ax, [g])
             W = trs_matrix(qrotmat(comp[3:7]), comp[0:3], comp[7:10], comp[10:13], comp[13:17])
@@ -790,4 +791,5 @@ def jobs(tier):
                   ('Iz+++p', ('I', 'z', (1, 1, 1), False, 1)), ('Px+-+kp', ('P', 'x', (1, -1, 1), True, -1))):
         J.append(('decompose_f32_' + nm, job_decompose('f32', *a)))
     J.append(('decompose_f64_Px+-+k', job_decompose('f64', 'P', 'x', (1, -1, 1), True)))
+    J.append(('decompose_f64_Iz+++', job_decompose('f64', 'I', 'z', (1, 1, 1), False)))
     return J
